@@ -766,7 +766,9 @@ def eval_report_to_sarif(ctx, R, ts):
             locs = {}
 
             def label(kind, i, fail=fail, locs=locs):
-                loc = O("location-of-%s%d" % (kind, i))
+                # a location with a concrete region: the first secondary label lies before every primary one, the second after
+                line = 10 + i if kind == "p" else (3 if i == 0 else 40)
+                loc = O("location-of-%s%d" % (kind, i), physical_location=S("Some", O("physical-location", region=S("Some", O("region", start_line=S("Some", line), end_line=S("Some", line), start_column=S("Some", 1), end_column=S("Some", 2))))))
                 locs[(kind, i)] = loc
                 err = O("error-of-%s%d" % (kind, i))
                 locs[("err", kind, i)] = err
